@@ -110,6 +110,10 @@ class FakeSocket(Socket):
         if WORLD.binds.get(_key(self.addr)) is self: del WORLD.binds[_key(self.addr)]
 
 
+class BlockedForever(RuntimeError):
+    """the real code entered a wait without a time limit that nothing in the (thread-less) world can end"""
+
+
 class Context:
     def socket(self, typ):
         s = FakeSocket(typ); WORLD.all_socks.append(s); return s
@@ -124,6 +128,9 @@ class Poller:
     def __contains__(self, s): return s in self.socks
     def poll(self, timeout=None):
         ready = [s for s in self.socks if s.queue]
+        if timeout is None and not ready:
+            # thread-less world: nothing can arrive while this call waits, so a poll without a time limit would never return
+            raise BlockedForever('poll(None) with nothing deliverable: the caller waits for ever')
         prio = WORLD.prio
         if prio is not None:
             visit = [s for s in prio if s in ready] + [s for s in ready if s not in prio]
